@@ -124,6 +124,20 @@ def g_c16(tier, seed):
                 samples=[dict(losses=[3.0, 1.0, 2.0], steps=3, return_best=True)], failures=fails[:5], errors=[])
 
 
+def _leaf_grid(pid):
+    def g(tier, seed):
+        cnt = []
+        fails = rt.rt_leaf_grid(pid, count=cnt)
+        return dict(evaluations=cnt[0], distinct_nontrivial=cnt[0],
+                    rule="real elementwise leaf bijections (float64) x parameter sets (positive/negative/small/large scales, several max_val) x boundary-directed points (0, +-1, +-max_val, +-tanh(max_val), their float neighbours, 1e-8, 1e4); each (class, params, point) is distinct",
+                    samples=[dict(cls="LeakyTanh", params=dict(max_val=3.0), point=3.0)], failures=fails[:5], errors=[])
+    return g
+
+
+for _pid in ("C01", "C02", "C07", "C18"):
+    GRIDS[_pid] = _leaf_grid(_pid)
+
+
 def main():
     if len(sys.argv) == 3 and sys.argv[1] == "--c10-batch":
         print(json.dumps(rt.rt_bisection_batch(json.loads(sys.argv[2]))))
